@@ -247,6 +247,12 @@ def strat_reject(tier):
         st.builds(lambda a, b: a + b, st.sampled_from(["1234-1234-1234-12", "12345-123-1234-12", "12345-1234-1234-1", "12345_1234_1234_12", "name (version 7)", "name (Version 07)", "name(version 07)", ""]), st.text(max_size=5)),
         _names,
         _EMBEDDED,
+        # digit LOOK-ALIKES that are not decimal digits (superscripts, circled digits, fractions: str.isdigit() / isnumeric() say yes, int() and
+        # \d say no) in the places where the documented shapes have digits
+        st.builds(lambda a, x, y, b: "%s (version %s%s)%s" % (a, x, y, b), st.sampled_from(["My Config", "x", "", "12345-1234-1234-12"]),
+                  st.sampled_from("0123456789\u00b2\u00b3\u00b9\u2070\u2460\u2468\u24ea\u00bd"), st.sampled_from("0123456789\u00b2\u00b3\u00b9\u2070\u2460\u2468\u24ea\u00bd"),
+                  st.sampled_from(["", " z", " "])),
+        st.builds(lambda c, v: "1234%s-1234-1234-1%s name" % (c, v), st.sampled_from("5\u00b2\u2460"), st.sampled_from("2\u00b3\u2468")),
     )))
 
 
